@@ -16,9 +16,20 @@ static Plan gen_cvbr_long(uint64_t seed, int tier) {
   if (r.chance(0.4)) p.ops.push_back(mkop("CTL", {11002, r.pick({1000, 1001, 1002})}));
   if (r.chance(0.3)) p.ops.push_back(mkop("CTL", {OPUS_SET_SIGNAL_REQUEST, r.pick({3001, 3002})}));
   int fam = r.pick({(int)SRC_TONES, (int)SRC_SWEEP, (int)SRC_VOICED, (int)SRC_NOISE, (int)SRC_MUSIC, (int)SRC_MUSIC, (int)SRC_VOICED, (int)SRC_CLICKS});
+  // one in seven: the cell in which SILK's rate control is on its own and the bound is sharp - stereo SILK-only above 24 kb/s on steady
+  // tonal material (the MDCT layer's reservoir plays no part, both channels are coded, the open-loop estimate is at its worst)
+  bool silk_stereo_cell = (ch == 2 && r.chance(0.3)) || (ch == 2 && getenv("OPSIM_C05_CELL"));
+  if (silk_stereo_cell) {
+    p.ops.push_back(mkop("CTL", {OPUS_SET_BITRATE_REQUEST, (int)r.pick({26000, 28000, 30000, 32000, 36000})}));
+    p.ops.push_back(mkop("CTL", {11002, 1000}));
+    p.ops.push_back(mkop("CTL", {OPUS_SET_FORCE_CHANNELS_REQUEST, 2}));
+    if (r.chance(0.5)) p.ops.push_back(mkop("CTL", {OPUS_SET_SIGNAL_REQUEST, 3001}));
+    fam = r.pick({(int)SRC_MUSIC, (int)SRC_TONES, (int)SRC_MUSIC});
+  }
   p.ops.push_back(mkop("SRC", {fam, r.pick({110, 220, 440, 1000, 3000}), r.pick({100, 300, 500, 900}), r.range(1, 1000), r.range(200, 900)}));
   int fi = r.weighted({2, 2, 4, 8, 3, 3, 0, 0, 0});
-  if (getenv("OPSIM_C05_LONGONLY")) {   // calibration runs: spread evenly over durations, low target sizes well represented
+  if (silk_stereo_cell) fi = r.pick({3, 3, 4, 5, 2});
+  if (getenv("OPSIM_C05_LONGONLY") && !silk_stereo_cell) {   // calibration runs: spread evenly over durations, low target sizes well represented
     fi = (int)r.range(0, 5);
     p.ops.push_back(mkop("CTL", {OPUS_SET_BITRATE_REQUEST, (int)r.pick({6000, 8000, 10000, 12000, 16000, 20000, 24000, 32000, 40000, 48000, 64000, 96000, 128000, 192000, (int)r.range(6000, 256000)})}));
     if (r.chance(0.4)) p.ops.push_back(mkop("CTL", {11002, 1002}));
